@@ -29,6 +29,16 @@ func keyFromSeed(seed uint64, label string) *btcec.PrivateKey {
 	return k
 }
 
+// impostorKey claims one public key and computes ECDH with another private key.
+type impostorKey struct {
+	claimed *btcec.PublicKey
+	actual  keychain.SingleKeyECDH
+}
+
+func (k *impostorKey) PubKey() *btcec.PublicKey { return k.claimed }
+
+func (k *impostorKey) ECDH(pub *btcec.PublicKey) ([32]byte, error) { return k.actual.ECDH(pub) }
+
 func ecdhKey(seed uint64, label string) keychain.SingleKeyECDH {
 	return &keychain.PrivKeyECDH{PrivKey: keyFromSeed(seed, label)}
 }
@@ -221,6 +231,10 @@ type hsConfig struct {
 	// KK: does each side store the peer's true key?
 	IKnowsR bool `json:"i_knows_r,omitempty"`
 	RKnowsI bool `json:"r_knows_i,omitempty"`
+	// Impostor ("initiator" | "responder", KK only): that party presents the
+	// static public key its peer stored at pairing time but does not own the
+	// matching private key (its ECDH operations use an unrelated key).
+	Impostor string `json:"impostor,omitempty"`
 	// StaleAuth: the initiator's ConnData already holds an auth payload from
 	// an earlier handshake (the real client keeps one ConnData across the
 	// pairing handshake and every reconnect).
@@ -288,6 +302,12 @@ func newHSPair(cfg hsConfig) *hsPair {
 	var iRemote, rRemote *btcec.PublicKey
 	if cfg.Pattern == "KK" {
 		iRemote, rRemote = p.R.static.PubKey(), p.I.static.PubKey()
+		switch cfg.Impostor {
+		case "initiator":
+			p.I.static = &impostorKey{claimed: p.I.static.PubKey(), actual: ecdhKey(cfg.Seed, "impostor")}
+		case "responder":
+			p.R.static = &impostorKey{claimed: p.R.static.PubKey(), actual: ecdhKey(cfg.Seed, "impostor")}
+		}
 		if !cfg.IKnowsR {
 			iRemote = keyFromSeed(cfg.Seed, "wrong-r").PubKey()
 		}
